@@ -79,9 +79,12 @@ def handle (line : String) : String :=
     match charsOfHex h with
     | none => "bad-hex"
     | some s =>
-      if quotedPanics s then "q=panic"
-      else reply [kv "q" (hexOfChars (quotedString s)), kv "o.back" (hexOfChars s),
-                  kvB "mback" (unescape (quotedString s) == some s)]
+      -- `q` is computed by the control-flow mirror of the source's loop (`quotedStringRs`), which
+      -- `quoted_rs_eq` proves equal to the char-wise `quotedString` the other theorems are about
+      match quotedStringRs s with
+      | none => "q=panic"
+      | some q => reply [kv "q" (hexOfChars q), kv "o.back" (hexOfChars s),
+                         kvB "mback" (unescape (quotedString s) == some s), kvB "meq" (q == quotedString s)]
   | ["search"] =>
     -- model search: shortest strings over the critical alphabet whose escaped form does not read
     -- back (non-empty only if the regenerated escape table broke `unescape_quoted`)
